@@ -39,6 +39,11 @@ UNIT_TIMEOUT = 1200
 COMPRESSORS = ("blosc", "zstd", "lz4", "bz2")
 
 
+def resolve(items):
+    """All reads are submitted first and only then waited for (as the mailboxes do): they really run concurrently."""
+    return [c.result() if isinstance(c, Future) else c for c in items]
+
+
 def dtypes():
     return [
         strax.time_fields + [(("value", "x"), np.int64)],
@@ -119,7 +124,7 @@ def round_trip(case, comp, rechunk, save_pool, load_pool):
         with common.quiet():
             saver = sfe.saver(key, md)
             saver.save_from((c for c in chunks), rechunk=rechunk, executor=pool if save_pool else None)
-            got = [c.result() if isinstance(c, Future) else c for c in sfe.loader(key, executor=pool if load_pool else None)]
+            got = resolve(list(sfe.loader(key, executor=pool if load_pool else None)))
         g = np.concatenate([c.data for c in got]) if got else a[:0]
         if not (g.dtype == a.dtype and len(g) == len(a) and g.tobytes() == a.tobytes()):
             errs.append(("rows", f"loaded rows differ: {len(g)} rows vs {len(a)} written"))
@@ -161,7 +166,7 @@ def verify_stored(d, key, a, chunks, rechunk, executor=None):
     """What a reader finds afterwards: rows, range, boundaries, chunk laws, metadata vs files."""
     errs = []
     sfe = strax.DataDirectory(d)
-    got = [c.result() if isinstance(c, Future) else c for c in sfe.loader(key, executor=executor)]
+    got = resolve(list(sfe.loader(key, executor=executor)))
     g = np.concatenate([c.data for c in got]) if got else a[:0]
     if not (g.dtype == a.dtype and len(g) == len(a) and g.tobytes() == a.tobytes()):
         errs.append(("rows", f"loaded rows differ: {len(g)} rows vs {len(a)} written"))
@@ -215,7 +220,7 @@ def forked_trip(case, comp):
         hrun.rm(d)
 
 
-def big_pool_trip(comp, seed, rounds, nchunks=12, nrows=20000, threads=8):
+def big_pool_trip(comp, seed, rounds, nchunks=12, nrows=150000, threads=8):
     """Chunk files of realistic size (hundreds of kB) read concurrently by a real thread pool: the decompression
     itself runs in parallel (the GIL is released inside the compressors)."""
     dt = dtypes()[0]
@@ -245,7 +250,7 @@ def big_pool_trip(comp, seed, rounds, nchunks=12, nrows=20000, threads=8):
         for r in range(rounds):
             try:
                 with common.quiet():
-                    got = [c.result() if isinstance(c, Future) else c for c in sfe.loader(key, executor=pool)]
+                    got = resolve(list(sfe.loader(key, executor=pool)))
                 g = np.concatenate([c.data for c in got])
                 if g.tobytes() != full.tobytes():
                     bad = int((g["x"] != full["x"]).sum()) if len(g) == len(full) else -1
@@ -330,7 +335,7 @@ def run_unit(u):
                 if len(e) > 2:
                     sig.update(common.exc_sig(e[2]))
                 res["violations"].append({"sig": sig, "what": f"{e[0]}: {e[1]}"[:500], "case": {"bigpool": comp, "seed": u["seed"], "rounds": u["rounds"]}})
-        res["samples"].append({"bigpool": "12 chunks x 20000 rows x 4 compressors, 8 loader threads"})
+        res["samples"].append({"bigpool": "12 chunks x 150000 rows x 4 compressors, 8 loader threads"})
         return res
     if u.get("fam") == "sched":
         sigs = set()
